@@ -32,6 +32,9 @@ type cfgSub struct {
 	maxB      time.Duration
 	dlTopic   string
 	dlN       int32
+	// topicGen / dlGen: which incarnation of the (re-usable) topic name the subscription is
+	// bound to; a deleted topic, or a later topic of the same name, is not it
+	topicGen, dlGen int
 	push      string
 }
 
@@ -41,6 +44,7 @@ type cfgRun struct {
 	trace  []string
 	stats  map[string]int
 	topics map[string]map[string]string
+	gen    map[string]int // incarnations of each topic name so far
 	subs   map[string]*cfgSub
 	defRet time.Duration
 	defTTL time.Duration
@@ -126,6 +130,7 @@ func (r *cfgRun) fill(req *pubsubpb.Subscription, base cfgSub) cfgSub {
 		sort.Strings(live)
 		if len(live) > 0 {
 			c.dlTopic = live[t.Intn(len(live))]
+			c.dlGen = r.gen[c.dlTopic]
 			c.dlN = int32(t.Intn(8))
 			req.DeadLetterPolicy = &pubsubpb.DeadLetterPolicy{DeadLetterTopic: c.dlTopic, MaxDeliveryAttempts: c.dlN}
 			if c.dlN == 0 {
@@ -153,8 +158,15 @@ func (r *cfgRun) checkSub(how string, n string, g *pubsubpb.Subscription) *Viola
 	if g.Name != n {
 		return bad("name", g.Name, n)
 	}
-	if g.Topic != c.topic {
-		return bad("topic", g.Topic, c.topic)
+	wantOwn := c.topic
+	if _, live := r.topics[c.topic]; !live || r.gen[c.topic] != c.topicGen {
+		wantOwn = "_deleted-topic_"
+	}
+	// how a topic that no longer exists is named is only pinned down where the property
+	// observes (Get / List: the placeholder); the Update response may also still name it
+	inUpdate := strings.HasPrefix(how, "Update response")
+	if g.Topic != wantOwn && !(inUpdate && wantOwn == "_deleted-topic_" && g.Topic == c.topic) {
+		return bad("topic", g.Topic, wantOwn)
 	}
 	if !labelsEq(g.Labels, c.labels) {
 		return bad("labels", g.Labels, c.labels)
@@ -203,10 +215,14 @@ func (r *cfgRun) checkSub(how string, n string, g *pubsubpb.Subscription) *Viola
 		}
 	} else {
 		wantTopic := c.dlTopic
-		if _, live := r.topics[c.dlTopic]; !live {
+		if _, live := r.topics[c.dlTopic]; !live || r.gen[c.dlTopic] != c.dlGen {
 			wantTopic = "_deleted-topic_"
 		}
-		if g.GetDeadLetterPolicy().GetDeadLetterTopic() != wantTopic || g.GetDeadLetterPolicy().GetMaxDeliveryAttempts() != c.dlN {
+		gotDL := g.GetDeadLetterPolicy().GetDeadLetterTopic()
+		if inUpdate && wantTopic == "_deleted-topic_" && gotDL == c.dlTopic {
+			gotDL = wantTopic
+		}
+		if gotDL != wantTopic || g.GetDeadLetterPolicy().GetMaxDeliveryAttempts() != c.dlN {
 			return bad("dead_letter_policy", g.DeadLetterPolicy, fmt.Sprintf("%s/%d", wantTopic, c.dlN))
 		}
 	}
@@ -272,7 +288,21 @@ var cfgPaths = []string{"labels", "expiration_policy", "message_retention_durati
 func (r *cfgRun) step() *Violation {
 	t := r.t
 	t.Frame()
-	switch t.Pick([]int{3, 2, 5, 12, 1, 2, 2}) {
+	switch t.Pick([]int{3, 2, 5, 12, 1, 2, 2, 2}) {
+	case 7: // delete topic (its name can be re-used; subscriptions stay bound to the deleted one)
+		n := cfgTopic(t.Intn(3))
+		_, err := r.call("DeleteTopic", &pubsubpb.DeleteTopicRequest{Topic: n})
+		r.ev("DeleteTopic %s -> %v", n, code(err))
+		if _, live := r.topics[n]; !live {
+			if code(err) != codes.NotFound {
+				return viol("C12", "status", "DeleteTopic of missing %s: %v", n, err)
+			}
+			return nil
+		}
+		if err != nil {
+			return viol("C12", "status", "DeleteTopic %s: %v", n, err)
+		}
+		delete(r.topics, n)
 	case 0: // create topic
 		n := cfgTopic(t.Intn(3))
 		l := r.labels()
@@ -288,6 +318,7 @@ func (r *cfgRun) step() *Violation {
 			return viol("C17", "create_rejected", "CreateTopic %s with labels %v rejected: %v", n, l, err)
 		}
 		r.topics[n] = l
+		r.gen[n]++
 	case 1: // update topic labels with mask variants
 		n := cfgTopic(t.Intn(3))
 		l := r.labels()
@@ -313,7 +344,7 @@ func (r *cfgRun) step() *Violation {
 		n := cfgSubN(t.Intn(4))
 		tn := cfgTopic(t.Intn(3))
 		req := &pubsubpb.Subscription{Name: n, Topic: tn}
-		c := r.fill(req, cfgSub{topic: tn})
+		c := r.fill(req, cfgSub{topic: tn, topicGen: r.gen[tn]})
 		resp, err := r.call("CreateSubscription", req)
 		r.ev("CreateSubscription %v -> %v", strings.ReplaceAll(fmt.Sprint(req), "\n", " "), code(err))
 		if r.subs[n] != nil {
@@ -392,7 +423,7 @@ func (r *cfgRun) step() *Violation {
 			case "filter":
 				next.filter = want.filter
 			case "dead_letter_policy":
-				next.dlTopic, next.dlN = want.dlTopic, want.dlN
+				next.dlTopic, next.dlN, next.dlGen = want.dlTopic, want.dlN, want.dlGen
 			case "enable_message_ordering":
 				next.ordered = want.ordered
 			}
@@ -451,7 +482,7 @@ func (r *cfgRun) step() *Violation {
 }
 
 func runConfig(t *testing.T, tape *Tape, w *World, variant string, steps int, out *runOutcome) {
-	r := &cfgRun{t: tape, w: w, stats: map[string]int{}, topics: map[string]map[string]string{}, subs: map[string]*cfgSub{}, hashes: map[uint64]bool{}}
+	r := &cfgRun{t: tape, w: w, stats: map[string]int{}, topics: map[string]map[string]string{}, gen: map[string]int{}, subs: map[string]*cfgSub{}, hashes: map[uint64]bool{}}
 	tape.Frame()
 	S.tick = time.Microsecond
 	for i := 0; i < steps; i++ {
